@@ -701,7 +701,7 @@ func vplugQuiet() { vplug.Quiet() }
 // replaced by one event whose field is the concatenation, other events unchanged, in order.
 func expectedJoin(sc *Scn) (map[string][]string, bool) {
 	chain := strings.Join(sc.Actions, ",")
-	if chain != "join" && chain != "discard,join" && chain != "joinmatch" && chain != "join,discard" {
+	if chain != "join" && chain != "discard,join" && chain != "joinmatch" && chain != "join,discard" && chain != "discard" {
 		return nil, false
 	}
 	if strings.Contains(sc.Sends, "f") {
@@ -724,7 +724,7 @@ func expectedJoin(sc *Scn) (map[string][]string, bool) {
 				continue
 			}
 			k := key(s+1, streamOf(e))
-			if chain == "discard,join" && strings.Contains(e.JSON, `"d":"1"`) {
+			if (chain == "discard,join" || chain == "discard") && strings.Contains(e.JSON, `"d":"1"`) {
 				continue // dropped before the join sees it
 			}
 			m, has := fieldM(e.JSON)
@@ -739,6 +739,12 @@ func expectedJoin(sc *Scn) (map[string][]string, bool) {
 				continue
 			}
 			switch {
+			case chain == "discard":
+				if has {
+					out[k] = append(out[k], m)
+				} else {
+					out[k] = append(out[k], "<none>")
+				}
 			case has && strings.HasPrefix(m, "S"):
 				flush(k)
 				v := m
